@@ -335,6 +335,13 @@ func (c *Conc) Meta(m absx.M) []byte {
 		} else {
 			out = `{"perm_channels":` + list + `}{"unknown":1}`
 		}
+	case "incomplete": // the documented structure, with one more entry that lacks its port id (so it names no existing channel)
+		extra := `{"channel_id":"channel-2"}`
+		if len(items) > 0 {
+			out = `{"perm_channels":[` + strings.Join(items, ",") + `,` + extra + `]}`
+		} else {
+			out = `{"perm_channels":[` + extra + `]}`
+		}
 	case "long":
 		out = `{"perm_channels":` + list + `,"pad":"` + strings.Repeat("x", 5200) + `"}`
 	default:
